@@ -2,10 +2,59 @@
 Property C18 (bracket part) — "Text entered at the REPL is evaluated as soon as the lines entered
 so far close every list they opened, and not before".
 
-The theorem relating `Bracket.closed` (the REPL's counter) to the token stream of the model lexer
-is added in the next commit; helper lemmas live in `RuschmProofs/BracketLemmas.lean`.
+The REPL decides whether the text entered so far is complete with a private character-level
+counter (`check_bracket_closed`, modelled by `Bracket.closed`). The theorem below says that this
+counter sees exactly the brackets the lexer sees: whenever the text tokenises without error, the
+count it arrives at is the number of opening tokens `(`, `#(`, `#u8(` minus the number of closing
+tokens `)` — parentheses inside strings, `|quoted|` identifiers, character literals and comments
+are not counted, by either. Only property theorems live here; helper lemmas are in
+`RuschmProofs/BracketLemmas.lean` (one lemma per scanner in `LexLemmas.lean`).
 -/
-import RuschmProofs.LexLemmas
+import RuschmProofs.BracketLemmas
 
 namespace Ruschm.C18
+open Ruschm Ruschm.Lex Ruschm.Text
+
+/-- The counter's final count is the nesting depth of the token stream. No side condition beyond
+"the text tokenises": a `,` as very last character (dropped by the lexer) and a comment that
+reaches the end of the text (which leaves the counter in comment mode) do not change the count. -/
+theorem bracket_count_is_depth (cs : List Char) (ts : List LToken)
+    (h : Lex.all cs = (ts, none)) : (Bracket.run cs).2 = depth (ts.map (·.tok)) :=
+  bracket_run_eq cs ts h
+
+/-- `check_bracket_closed` answers "closed" exactly when the tokens read so far contain at least
+as many `)` as `(`, `#(` and `#u8(`. -/
+theorem bracket_agrees_with_reader (cs : List Char) (ts : List LToken)
+    (h : Lex.all cs = (ts, none)) :
+    Bracket.closed cs = decide (depth (ts.map (·.tok)) ≤ 0) :=
+  bracket_closed_eq cs ts h
+
+/-- the same, without naming the token list -/
+theorem bracket_agrees_with_reader' (cs : List Char) (h : (Lex.all cs).2 = none) :
+    Bracket.closed cs = decide (depth ((Lex.all cs).1.map (·.tok)) ≤ 0) :=
+  bracket_closed_eq cs _ (Prod.ext rfl h)
+
+section Example
+/-- `(f #\( "a)" |b)| ;)` + newline + `#(1` + `,` : two lists are open; the parentheses in the
+character, the string, the quoted identifier and the comment do not count, the final `,` is
+dropped. -/
+private def sample : List Char := "(f #\\( \"a)\" |b)| ;)\n#(1,".toList
+
+example : (Lex.all sample).2 = none ∧
+    (Lex.all sample).1.map (·.tok)
+      = [.lparen, .ident "f", .prim (.chr '('), .prim (.str "a)"), .ident "b)", .vecIntro,
+          .prim (.int 1)] := by
+  simp [sample, Lex.all, Lex.allAux, Lex.next, Lex.skipAtmosphere, Lex.token, Lex.isWs, Lex.adv,
+    Lex.character, Lex.takeRun, Lex.normalIdentifier, Lex.quotedIdentifier, Lex.number,
+    Lex.integerToken, Lex.parseI32?, Lex.digitsVal, fitsI32, Lex.isDigit,
+    Lex.isSubsequent, Lex.isInitial, Lex.isLetter, Lex.isAsciiAlnum, Lex.endOfSharpToken,
+    Lex.endOfToken, Lex.testDelimiter, Lex.isDelimiter, Lex.string, Except.map, bind,
+    Except.bind, pure, Except.pure]
+
+example : Bracket.closed sample = false := by decide
+
+example : depth [.lparen, .ident "f", .prim (.chr '('), .prim (.str "a)"), .ident "b)", .vecIntro,
+    .prim (.int 1)] = 2 := by decide
+end Example
+
 end Ruschm.C18
